@@ -697,6 +697,9 @@ class NpyArray:
             raise IndexError("NpyArray is not initialized")
 
         if self._memmap is None:
+            # Make appended rows part of the file before they can be changed in place: a change
+            # through the map is visible in the file at once, the deferred header is not
+            self._write_header_data()
             order = 'F' if self.fortran_order else 'C'
             self._memmap = np.memmap(self.fs, dtype=self.dtype, shape=self.shape,
                                      offset=self.header_length, order=order)
